@@ -326,17 +326,59 @@ impl Deserializable for ProofOptions {
     /// # Errors
     /// Returns an error of a valid proof options could not be read from the specified `source`.
     fn read_from<R: ByteReader>(source: &mut R) -> Result<Self, DeserializationError> {
+        let num_queries = source.read_u8()? as usize;
+        let blowup_factor = source.read_u8()? as usize;
+        let grinding_factor = source.read_u8()? as u32;
+        let field_extension = FieldExtension::read_from(source)?;
+        let fri_folding_factor = source.read_u8()? as usize;
+        let fri_remainder_max_degree = source.read_u8()? as usize;
+        let batching_constraints = BatchingMethod::read_from(source)?;
+        let batching_deep = BatchingMethod::read_from(source)?;
+        let num_partitions = source.read_u8()? as usize;
+        let hash_rate = source.read_u8()? as usize;
+
+        // the constructors panic on invalid parameters, so the values read from the source are
+        // validated here and turned into deserialization errors
+        let invalid = |what: &str, value: usize| {
+            Err(DeserializationError::InvalidValue(format!("{what} cannot be {value}")))
+        };
+        if num_queries == 0 {
+            return invalid("number of queries", num_queries);
+        }
+        if !blowup_factor.is_power_of_two()
+            || !(MIN_BLOWUP_FACTOR..=MAX_BLOWUP_FACTOR).contains(&blowup_factor)
+        {
+            return invalid("blowup factor", blowup_factor);
+        }
+        if grinding_factor > MAX_GRINDING_FACTOR {
+            return invalid("grinding factor", grinding_factor as usize);
+        }
+        if !fri_folding_factor.is_power_of_two()
+            || !(FRI_MIN_FOLDING_FACTOR..=FRI_MAX_FOLDING_FACTOR).contains(&fri_folding_factor)
+        {
+            return invalid("FRI folding factor", fri_folding_factor);
+        }
+        if !(fri_remainder_max_degree + 1).is_power_of_two() {
+            return invalid("FRI polynomial remainder degree", fri_remainder_max_degree);
+        }
+        if !(1..=16).contains(&num_partitions) {
+            return invalid("number of partitions", num_partitions);
+        }
+        if hash_rate == 0 {
+            return invalid("hash rate", hash_rate);
+        }
+
         let result = ProofOptions::new(
-            source.read_u8()? as usize,
-            source.read_u8()? as usize,
-            source.read_u8()? as u32,
-            FieldExtension::read_from(source)?,
-            source.read_u8()? as usize,
-            source.read_u8()? as usize,
-            BatchingMethod::read_from(source)?,
-            BatchingMethod::read_from(source)?,
+            num_queries,
+            blowup_factor,
+            grinding_factor,
+            field_extension,
+            fri_folding_factor,
+            fri_remainder_max_degree,
+            batching_constraints,
+            batching_deep,
         );
-        Ok(result.with_partitions(source.read_u8()? as usize, source.read_u8()? as usize))
+        Ok(result.with_partitions(num_partitions, hash_rate))
     }
 }
 
